@@ -191,6 +191,28 @@ def h_union_with_empty(base):
         prove(f"{nm}:union_of_empty_operands_is_empty", Or(u.shape.x == 0, u.shape.y == 0), when=And(e0, e1))
 
 
+def h_near_scale_wide(eps):
+    """a pixel size that differs by less than the accepted relative tolerance (numpy.isclose's
+    1e-5): when the pair is accepted, the union still has to contain both operands to within half
+    a pixel, however many pixels wide they are (the mismatch times the width is a drift in pixels)"""
+    from affine import Affine
+
+    import odc.geo.geobox as gbx
+
+    e = F(eps)
+    ny0, nx0 = 10, Int("nx0", 1, 10**7)
+    ny1, nx1 = 10, Int("nx1", 1, 10**7)
+    g0 = gbx.GeoBox((ny0, nx0), Affine(rconst(10), 0.0, rconst(0), 0.0, rconst(-10), rconst(0)), "epsg:3857")
+    g1 = gbx.GeoBox((ny1, nx1), Affine(rconst(10 * (1 + e)), 0.0, rconst(0), 0.0, rconst(-10), rconst(0)), "epsg:3857")
+    try:
+        u = g0 | g1
+    except ValueError:
+        return  # refusing is what the statement asks for
+    # accepted: the far edge of the second operand, in pixels of the first
+    far = nx1 * (1 + e)
+    prove("accepted_pair_is_contained_in_its_union_to_half_a_pixel", u.shape.x >= far - F(1, 2))
+
+
 def h_intersection(base, perturb=False):
     (g0, tx0, ty0, ny0, nx0), (g1, tx1, ty1, ny1, nx1) = mk_family(base, 2, perturb=perturb)
     r = g0 & g1
@@ -477,6 +499,9 @@ OBLIGATIONS = [
           descr="union with an operand that has no pixels (the result of an intersection of boxes that do not meet): the smallest box containing the pixels of the others, in either order; empty with empty is empty",
           functions=("odc.geo.geobox.geobox_union_conservative", "odc.geo.geobox.bounding_box_in_pixel_domain", "odc.geo.geom.bbox_union"),
           bounds="two boxes on one grid, symbolic integer shifts, symbolic shapes >= 0 with at least one of them empty", setup=setup, timeout_ms=20000)] if True else []),
+    Ob("S3_near_scale_wide", h_near_scale_wide, fixed(dict(eps="9/1000000"), dict(eps="-4/1000000")),
+       descr="a pixel-size mismatch inside the accepted relative tolerance: if the pair is accepted, the union contains both operands to within half a pixel whatever their width",
+       functions=("odc.geo.geobox.pixel_translation", "odc.geo.geobox.geobox_union_conservative"), bounds="relative mismatch from a grid (9e-6, -4e-6); widths symbolic up to 10^7 pixels", setup=setup, timeout_ms=20000),
     Ob("S2_intersection", h_intersection, tiered([dict(base=b) for b in BQ], [dict(base=b) for b in BT]), descr="& is exactly the shared pixels (normalised empty GeoBox otherwise, also when empty on one axis only); overlap_roi indexes the shared pixels in the first operand",
        functions=("odc.geo.geobox.geobox_intersection_conservative", "odc.geo.geobox.GeoBox.overlap_roi", "odc.geo.geobox.bounding_box_in_pixel_domain"), stubs=("numpy.isclose model",), **FB),
     Ob("S2_within_tolerance", h_union, tiered([dict(base="nonsquare", perturb=True)], [dict(base=b, perturb=True) for b in BT]),
